@@ -43,4 +43,80 @@ inductive KsGuard where
   | unknown
 deriving DecidableEq, Repr, Inhabited
 
+/-- a `resource.LabelOp` constant (pkg/resource/label_query.go) -/
+inductive LOp where
+  | opExists | opEqual | opIn | opLT | opLTE | opLTNumeric | opLTENumeric | unknown
+deriving DecidableEq, Repr, Inhabited
+
+/-- a `v1alpha1.LabelTerm_*` wire enum constant -/
+inductive WireOp where
+  | wEqual | wExists | wNotExists | wIn | wLT | wLTE | wLTNumeric | wLTENumeric | unknown
+deriving DecidableEq, Repr, Inhabited
+
+/-- a `resource.Label*` query-option constructor -/
+inductive LCtor where
+  | cExists | cEqual | cIn | cLT | cLTE | cLTNumeric | cLTENumeric | unknown
+deriving DecidableEq, Repr, Inhabited
+
+/-- how a struct-literal field / call argument is filled: copied from the source term
+    (`Key: term.Key`), left out, or something the extractor does not recognise -/
+inductive FieldUse where
+  | copied | absent | unknown
+deriving DecidableEq, Repr, Inhabited
+
+/-- value argument the server passes to the constructor: nothing, `term.Value[0]`, `term.Value` -/
+inductive ValueUse where
+  | noValue | first | all | unknown
+deriving DecidableEq, Repr, Inhabited
+
+/-- trailing term options the server passes: `opts...` (built from `term.Invert`),
+    the literal `resource.NotMatches`, or nothing -/
+inductive InvertUse where
+  | fromTerm | always | never | unknown
+deriving DecidableEq, Repr, Inhabited
+
+/-- `Value:` of the `LabelTerm` a constructor builds: absent, `[]string{value}`, the set parameter -/
+inductive ValueShape where
+  | noValue | single | set | unknown
+deriving DecidableEq, Repr, Inhabited
+
+/-- one `case resource.LabelOpX:` of client/label_query.go `transformLabelQuery` -/
+structure ClientRow where
+  op : LOp
+  wire : WireOp
+  key : FieldUse
+  value : FieldUse
+  invert : FieldUse
+deriving DecidableEq, Repr, Inhabited
+
+/-- one `case v1alpha1.LabelTerm_X:` of server/helpers.go `ConvertLabelQuery` -/
+structure ServerRow where
+  wire : WireOp
+  ctor : LCtor
+  key : FieldUse
+  value : ValueUse
+  invert : InvertUse
+deriving DecidableEq, Repr, Inhabited
+
+/-- one `func LabelX(label, value, opts...)` of pkg/resource/label_query.go -/
+structure CtorRow where
+  ctor : LCtor
+  op : LOp
+  key : FieldUse
+  value : ValueShape
+  invert : FieldUse
+deriving DecidableEq, Repr, Inhabited
+
+/-- what the filter closure of `WatchAll` does with an `Updated` event for one combination
+    of (old matches, new matches): retype to Created / Destroyed (dropping `Old`), pass it
+    through, or skip it -/
+inductive RewriteAct where
+  | toCreated | toDestroyed | pass | drop | unknown
+deriving DecidableEq, Repr, Inhabited
+
+/-- the predicate a site applies to a resource: `IDQuery.Matches(md) && LabelQueries.Matches(labels)` -/
+inductive SelPred where
+  | idAndLabels | unknown
+deriving DecidableEq, Repr, Inhabited
+
 end Cosi.Gen
